@@ -3,7 +3,7 @@
 (* factories and handler factories memoise their product, loggers are      *)
 (* shared by name (logging.getLogger), file handlers register a weak       *)
 (* reference in the reopen registry; actions CallFactory, Reopen, CloseAll,*)
-(* DropRef.                                                                *)
+(* DropRef, CloseOne.                                                      *)
 EXTENDS ZLogger
 
 (* A configuration is a sequence of logger sections                        *)
@@ -92,7 +92,19 @@ DropRef(h) ==
   /\ UNCHANGED <<cfg, made>>
   /\ Record([o |-> "drop", f |-> 0, h |-> h])
 
+(* the application closes one file handler itself (handler.close()) while  *)
+(* its logger still holds it: the handler leaves the registry there and    *)
+(* then, so a later reopen does not bring it back                          *)
+CloseOne(h) ==
+  /\ Len(hist) < MaxOps
+  /\ h \in DOMAIN H /\ H[h].alive /\ H[h].cls \in FileLike /\ ~H[h].shut
+  /\ H' = [H EXCEPT ![h].open = FALSE, ![h].shut = TRUE]
+  /\ reg' = RemoveAll(reg, h)
+  /\ UNCHANGED <<cfg, made, loggers>>
+  /\ Record([o |-> "closeone", f |-> 0, h |-> h])
+
 Next == (\E f \in DOMAIN cfg : CallFactory(f)) \/ Reopen \/ CloseAll \/ (\E h \in DOMAIN H : DropRef(h))
+        \/ (\E h \in DOMAIN H : CloseOne(h))
 LSpec == Init /\ [][Next]_lvars
 
 (* invariants *)
